@@ -27,6 +27,7 @@ type LiveCase struct {
 	TCPMux bool      `json:"tcpmux"`
 	TLS    bool      `json:"tls"`
 	Frames []DecCase `json:"frames"`
+	Stallers  int    `json:"stallers"`  // peers that send a header plus part of the body and then stay silent, while an honest login arrives
 	Pipelined int    `json:"pipelined"` // >0: a peer that sends its Login and the first bytes of what follows in ONE write (split point variants)
 }
 
@@ -44,6 +45,7 @@ func genLive(t *rapid.T) LiveCase {
 	ty := rapid.SampledFrom([]byte{'h', '4', '1', 'p', '2', 'c', 'r', 's', 'u', 'i', 'n', 'm', '5', '6', '3'}).Draw(t, "unexpected")
 	c.Frames = append(c.Frames, DecCase{Hex: hex.EncodeToString(frame(ty, 2, []byte("{}"))), Kind: "unexpected-" + string(ty)})
 	c.Pipelined = rapid.IntRange(0, 3).Draw(t, "pipelined")
+	c.Stallers = rapid.SampledFrom([]int{0, 0, 1, 3}).Draw(t, "stallers")
 	return c
 }
 
@@ -66,6 +68,39 @@ func runLive(c LiveCase) error {
 	defer by.Close()
 	if r, e := by.NewProxy(&msg.NewProxy{ProxyName: "by", ProxyType: "tcp", RemotePort: s.AllowPort(0)}, 5*time.Second); e != nil || r.Error != "" {
 		return fmt.Errorf("registration: %v %+v", e, r)
+	}
+	if c.Stallers > 0 {
+		// incomplete first messages must not delay anybody else: the decoder of one connection waiting for the rest of
+		// its frame is that connection's business only
+		var stalled []net.Conn
+		for k := 0; k < c.Stallers; k++ {
+			cn, e := by.RawConn()
+			if e != nil {
+				return fx.Inconclusive("raw conn: %v", e)
+			}
+			stalled = append(stalled, cn)
+			_, _ = cn.Write(append(frame('o', 200, nil), []byte(`{"version":"0.6`)...)) // header announcing 200 bytes, 15 of them sent
+		}
+		time.Sleep(50 * time.Millisecond)
+		t0 := time.Now()
+		honest, e := fx.ConnectCommon(common(), "honest", "", 0, nil)
+		took := time.Since(t0)
+		for _, cn := range stalled {
+			cn.Close()
+		}
+		if e != nil {
+			return fmt.Errorf("with %d peers stalled in the middle of their first message, an honest login failed: %v", c.Stallers, e)
+		}
+		honest.Close()
+		if took > 3*time.Second {
+			return fmt.Errorf("with %d peers stalled in the middle of their first message, an honest login took %v", c.Stallers, took)
+		}
+		for k := 0; k < 200; k++ { // until the honest session and the stalled connections are gone again
+			if sn := s.Snapshot(); sn == nil || len(sn.Sessions) <= 1 {
+				break
+			}
+			time.Sleep(10 * time.Millisecond)
+		}
 	}
 	base := s.Snapshot()
 	for i, f := range c.Frames {
